@@ -400,6 +400,7 @@ def report(pid: str, a, results: List[Dict[str, Any]], seed: int, wall: float, c
     samples: List[Dict[str, Any]] = []
     cross_checked = cross_agree = 0
     assumed_used = []
+    scanned = set()
     for r in results:
         if r.get('assumed'):
             assumed_used.append(f"assumed contract (never proved): {r['function']}")
@@ -408,6 +409,21 @@ def report(pid: str, a, results: List[Dict[str, Any]], seed: int, wall: float, c
             assumed_used.append(f"assumed lemma in {r['function']}: {callee} does not raise there - {why}")
         for cl in r.get('assumed_clauses') or []:
             assumed_used.append(f"assumed clause (not proved) {r['function']}::{cl}")
+        cmod = (r.get('contract') or '').split(':')[0]
+        if cmod and cmod not in scanned:
+            scanned.add(cmod)
+            # mechanical scan of the sidecar module for trusted constructs
+            try:
+                src = open(os.path.join(HERE, *cmod.split('.')) + '.py').read()
+                n_def = src.count('define(')
+                n_unchecked = src.count('frame_unchecked = True')
+                if n_def:
+                    assumed_used.append(f'{cmod}: {n_def} definitional axiom instance(s) (define(...)) of uninterpreted '
+                                        f'spec predicates - trusted definitions')
+                if n_unchecked:
+                    assumed_used.append(f'{cmod}: {n_unchecked} contract(s) with frame_unchecked = True (frame not proved)')
+            except OSError:
+                pass
         obs = [o for o in r['obligations'] if relevant(o, pid)]
         n_ob += len(obs)
         n_dis += sum(1 for o in obs if o['verdict'] == 'discharged')
